@@ -292,6 +292,11 @@ func runC13(c *Ctx) {
 	c13DeferNonInterference(c)
 	// delivery of every incremental payload exactly once over multipart/mixed (same rule as C12/pending-queue)
 	c12PendingQueue(c)
+	valueWithVariables(c)
+	fieldSetParallel(c)
+	funcFieldsSet(c, pkgGraphql)
+	batchHasNextFromLast(c)
+	fieldSetAgreement(c)
 }
 
 func factsHaveDeferrable(call ssa.CallInstruction) bool {
